@@ -55,10 +55,12 @@ Fixpoint hpush (x : entry) (h : list entry) : list entry :=
   end.
 
 (* ---- small equality helpers for the matcher ---- *)
+(* lazy conjunction: [andb] evaluates both arguments under vm_compute *)
+Notation "a &&& b" := (if a then b else false) (at level 40, left associativity).
 Fixpoint list_eqb {A} (eqb : A -> A -> bool) (a b : list A) : bool :=
   match a, b with
   | [], [] => true
-  | x :: a', y :: b' => eqb x y && list_eqb eqb a' b'
+  | x :: a', y :: b' => if eqb x y then list_eqb eqb a' b' else false
   | _, _ => false
   end.
 Definition entry_eqb (a b : entry) : bool := Nat.eqb (fst a) (fst b) && Z.eqb (snd a) (snd b).
@@ -337,12 +339,11 @@ Definition cpc_eqb (a b : cpc) : bool :=
   | _, _ => false
   end.
 Definition st_eqb (a b : st) : bool :=
-  list_eqb Z.eqb (src a) (src b) && Z.eqb (buf a) (buf b) && list_eqb Bool.eqb (rel a) (rel b)
-  && Nat.eqb (reqs a) (reqs b) && Nat.eqb (pulled a) (pulled b) && dpc_eqb (disp a) (disp b)
-  && Z.eqb (inflight a) (inflight b) && list_eqb wpc_eqb (ws a) (ws b)
-  && Bool.eqb (in_closed a) (in_closed b) && Nat.eqb (ndone a) (ndone b)
-  && Bool.eqb (ch_closed a) (ch_closed b) && list_eqb entry_eqb (heap a) (heap b)
-  && Nat.eqb (next a) (next b) && cpc_eqb (cons a) (cons b) && list_eqb Z.eqb (yielded a) (yielded b).
+  list_eqb wpc_eqb (ws a) (ws b) &&& dpc_eqb (disp a) (disp b) &&& cpc_eqb (cons a) (cons b)
+  &&& list_eqb entry_eqb (heap a) (heap b) &&& Nat.eqb (next a) (next b) &&& Z.eqb (inflight a) (inflight b)
+  &&& Nat.eqb (pulled a) (pulled b) &&& Nat.eqb (reqs a) (reqs b) &&& list_eqb Bool.eqb (rel a) (rel b)
+  &&& Bool.eqb (in_closed a) (in_closed b) &&& Nat.eqb (ndone a) (ndone b) &&& Bool.eqb (ch_closed a) (ch_closed b)
+  &&& list_eqb Z.eqb (yielded a) (yielded b) &&& Z.eqb (buf a) (buf b) &&& list_eqb Z.eqb (src a) (src b).
 
 (* the state right after MapIterator(iter, parallelism, bufferSize, f) returned:
    [gated k = true] means the harness holds f on item k until the controller releases it *)
@@ -351,18 +352,44 @@ Definition init (gomaxprocs parallelism bufferSize : Z) (items : list Z) (gated 
   mkSt items (norm_buf p bufferSize) (map negb gated) 0 0 DPull 0 (repeat WIdle (Z.to_nat p)) false 0 false
        [] 0 CIdle [].
 
-(* symmetry reduction for the matcher only: workers are interchangeable, so a dispatch to the
-   first idle worker represents all of them *)
+(* ---- reductions used by the matcher only (the theorems are about [step]/[qstep]) ----
+   (a) symmetry: workers are interchangeable, so the matcher keeps the worker list sorted
+       ([canon]) and dispatches to the first idle worker only;
+   (b) eager internal steps: [TCloseIn], [TInClosed w], [TWorkerDone w] never disable another label and
+       commute with every other label, so when one of them is enabled it is the only internal
+       step explored from that state. *)
+Definition wrank (x : wpc) : nat * nat :=
+  match x with
+  | WIdle => (0, 0) | WHas k => (1, k) | WInF k => (2, k) | WSend k _ => (3, k) | WExit => (4, 0) | WDone => (5, 0)
+  end%nat.
+Definition wle (a b : wpc) : bool :=
+  let '(r1, k1) := wrank a in let '(r2, k2) := wrank b in
+  (r1 <? r2)%nat || ((r1 =? r2)%nat && (k1 <=? k2)%nat).
+Fixpoint winsert (x : wpc) (l : list wpc) : list wpc :=
+  match l with [] => [x] | y :: t => if wle x y then x :: l else y :: winsert x t end.
+Definition wsort (l : list wpc) : list wpc := fold_right winsert [] l.
+Definition canon (s : st) : st :=
+  mkSt (src s) (buf s) (rel s) (reqs s) (pulled s) (disp s) (inflight s) (wsort (ws s)) (in_closed s) (ndone s)
+       (ch_closed s) (heap s) (next s) (cons s) (yielded s).
+Definition mstep (fv : Z -> Z) (s : st) (l : lab) : option st :=
+  match qstep fv s l with Some s' => Some (canon s') | None => None end.
+
 Fixpoint first_idle (l : list wpc) (i : nat) : list nat :=
   match l with
   | [] => []
   | WIdle :: _ => [i]
   | _ :: t => first_idle t (S i)
   end.
-Definition tau_labels (s : st) : list lab :=
-  [TAcquire; TCloseIn; TLoop; TChClosed]
-  ++ map TDispatch (first_idle (ws s) 0)
-  ++ flat_map (fun w => [TInClosed w; TWorkerDone w; TResult w]) (seq 0 (length (ws s))).
+Definition eager_labels (s : st) : list lab :=
+  TCloseIn :: flat_map (fun w => [TInClosed w; TWorkerDone w]) (seq 0 (length (ws s))).
+Definition tau_labels (fv : Z -> Z) (s : st) : list lab :=
+  match filter (enabled fv s) (eager_labels s) with
+  | l :: _ => [l]
+  | [] =>
+      [TAcquire; TLoop; TChClosed]
+      ++ map TDispatch (first_idle (ws s) 0)
+      ++ map TResult (seq 0 (length (ws s)))
+  end.
 
 Definition labels_ev (s : st) (e : lab) : list lab :=
   match e with
@@ -373,12 +400,12 @@ Definition labels_ev (s : st) (e : lab) : list lab :=
 
 Definition accepts_history (fv : Z -> Z) (g par bufsz : Z) (items : list Z) (gated : list bool)
            (evs : list lab) : bool :=
-  accepts (qstep fv) vis lab_eqb st_eqb tau_labels labels_ev 64 (init g par bufsz items gated) evs.
+  accepts (mstep fv) vis lab_eqb st_eqb (tau_labels fv) labels_ev 64 (init g par bufsz items gated) evs.
 
 Definition first_rejected (fv : Z -> Z) (g par bufsz : Z) (items : list Z) (gated : list bool)
            (evs : list lab) : option nat :=
-  first_reject (qstep fv) vis lab_eqb st_eqb tau_labels labels_ev 64
-               (close (qstep fv) vis st_eqb tau_labels 64 [init g par bufsz items gated]) evs O.
+  first_reject (mstep fv) vis lab_eqb st_eqb (tau_labels fv) labels_ev 64
+               (close (mstep fv) vis st_eqb (tau_labels fv) 64 [init g par bufsz items gated]) evs O.
 
 End MI.
 
@@ -910,18 +937,19 @@ Definition cpc_eqb (a b : cpc) : bool :=
   | _, _ => false
   end.
 Definition st_eqb (a b : st) : bool :=
-  list_eqb Z.eqb (src a) (src b) && list_eqb Bool.eqb (ferr a) (ferr b) && Bool.eqb (serr a) (serr b)
-  && Nat.eqb (buf a) (buf b) && list_eqb Bool.eqb (fgated a) (fgated b) && list_eqb Bool.eqb (sgated a) (sgated b)
-  && list_eqb Bool.eqb (frel a) (frel b) && list_eqb Bool.eqb (srel a) (srel b)
-  && list_eqb creq_eqb (reqs a) (reqs b) && list_eqb Bool.eqb (nctx a) (nctx b) && Bool.eqb (pdone a) (pdone b)
-  && gstate_eqb (g a) (g b) && opterr_eqb (eg_err a) (eg_err b) && Nat.eqb (egdone a) (egdone b)
-  && Nat.eqb (pulled a) (pulled b) && dpc_eqb (disp a) (disp b) && Nat.eqb (tokens a) (tokens b)
-  && list_eqb wpc_eqb (ws a) (ws b) && Bool.eqb (in_closed a) (in_closed b) && Nat.eqb (ndone a) (ndone b)
-  && list_eqb entry_eqb (cbuf a) (cbuf b) && Bool.eqb (c_closed a) (c_closed b)
-  && list_eqb entry_eqb (heap a) (heap b) && Nat.eqb (next a) (next b) && cpc_eqb (cons a) (cons b)
-  && list_eqb Z.eqb (yielded a) (yielded b) && Nat.eqb (taken a) (taken b) && Nat.eqb (ndisp a) (ndisp b)
-  && list_eqb Nat.eqb (failed a) (failed b) && Bool.eqb (srcfailed a) (srcfailed b)
-  && Bool.eqb (close_called a) (close_called b) && Nat.eqb (src_closed a) (src_closed b).
+  list_eqb wpc_eqb (ws a) (ws b) &&& dpc_eqb (disp a) (disp b) &&& cpc_eqb (cons a) (cons b)
+  &&& list_eqb entry_eqb (cbuf a) (cbuf b) &&& list_eqb entry_eqb (heap a) (heap b)
+  &&& gstate_eqb (g a) (g b) &&& opterr_eqb (eg_err a) (eg_err b) &&& Nat.eqb (egdone a) (egdone b)
+  &&& Nat.eqb (tokens a) (tokens b) &&& Nat.eqb (next a) (next b) &&& Nat.eqb (pulled a) (pulled b)
+  &&& Bool.eqb (in_closed a) (in_closed b) &&& Nat.eqb (ndone a) (ndone b) &&& Bool.eqb (c_closed a) (c_closed b)
+  &&& list_eqb creq_eqb (reqs a) (reqs b) &&& list_eqb Bool.eqb (frel a) (frel b)
+  &&& list_eqb Bool.eqb (srel a) (srel b) &&& list_eqb Bool.eqb (nctx a) (nctx b) &&& Bool.eqb (pdone a) (pdone b)
+  &&& Nat.eqb (taken a) (taken b) &&& Nat.eqb (ndisp a) (ndisp b) &&& list_eqb Nat.eqb (failed a) (failed b)
+  &&& Bool.eqb (srcfailed a) (srcfailed b) &&& Bool.eqb (close_called a) (close_called b)
+  &&& Nat.eqb (src_closed a) (src_closed b) &&& list_eqb Z.eqb (yielded a) (yielded b)
+  &&& Nat.eqb (buf a) (buf b) &&& Bool.eqb (serr a) (serr b) &&& list_eqb Z.eqb (src a) (src b)
+  &&& list_eqb Bool.eqb (ferr a) (ferr b) &&& list_eqb Bool.eqb (fgated a) (fgated b)
+  &&& list_eqb Bool.eqb (sgated a) (sgated b).
 
 (* scenario configuration *)
 Record cfg := mkCfg {
@@ -940,17 +968,49 @@ Definition init (c : cfg) : st :=
        GLive None 0 0 SPull b (repeat TIdle (Z.to_nat p)) false 0 [] false [] 0 KIdle
        [] 0 0 [] false false 0.
 
+(* ---- reductions used by the matcher only (see MI): sorted worker list, dispatch to the first idle
+   worker, and eager internal steps that never disable another label and commute with every
+   other label: [TCloseIn], [TInClosed w], [TWExit w], [TLoop], [TPut]. *)
+Definition erank (r : option err) : nat :=
+  match r with
+  | None => 0 | Some (ECtx ByError) => 1 | Some (ECtx ByClose) => 2 | Some (ECtx ByParent) => 3
+  | Some (ECtx ByWait) => 4 | Some ESrc => 5 | Some (EF k) => 6 + k
+  end%nat.
+Definition wrank (x : wpc) : nat * nat :=
+  match x with
+  | TIdle => (0, 0) | THas k => (1, k) | TInF k => (2, k) | TSend k _ => (3, k)
+  | TExit r => (4, erank r) | TRet r => (5, erank r) | TDone => (6, 0)
+  end%nat.
+Definition wle (a b : wpc) : bool :=
+  let '(r1, k1) := wrank a in let '(r2, k2) := wrank b in
+  (r1 <? r2)%nat || ((r1 =? r2)%nat && (k1 <=? k2)%nat).
+Fixpoint winsert (x : wpc) (l : list wpc) : list wpc :=
+  match l with [] => [x] | y :: t => if wle x y then x :: l else y :: winsert x t end.
+Definition wsort (l : list wpc) : list wpc := fold_right winsert [] l.
+Definition canon (s : st) : st :=
+  mkSt (src s) (ferr s) (serr s) (buf s) (fgated s) (sgated s) (frel s) (srel s) (reqs s) (nctx s) (pdone s)
+       (g s) (eg_err s) (egdone s) (pulled s) (disp s) (tokens s) (wsort (ws s)) (in_closed s) (ndone s)
+       (cbuf s) (c_closed s) (heap s) (next s) (cons s)
+       (yielded s) (taken s) (ndisp s) (failed s) (srcfailed s) (close_called s) (src_closed s).
+Definition mstep (fv : Z -> Z) (s : st) (l : lab) : option st :=
+  match qstep fv s l with Some s' => Some (canon s') | None => None end.
+
 Fixpoint first_idle (l : list wpc) (i : nat) : list nat :=
   match l with
   | [] => []
   | TIdle :: _ => [i]
   | _ :: t => first_idle t (S i)
   end.
-Definition tau_labels (s : st) : list lab :=
-  [TDReady; TDCtx; TCloseIn; TDRet; TLoop; TPut; TRecv; TCClosed; TNextCtx; TWait; TCloseCancel; TCloseWait;
-   TParentProp]
-  ++ map TDispatch (first_idle (ws s) 0)
-  ++ flat_map (fun w => [TInClosed w; TWSend w; TWCtx w; TWExit w; TWRet w]) (seq 0 (length (ws s))).
+Definition eager_labels (s : st) : list lab :=
+  [TCloseIn; TLoop; TPut] ++ flat_map (fun w => [TInClosed w; TWExit w]) (seq 0 (length (ws s))).
+Definition tau_labels (fv : Z -> Z) (s : st) : list lab :=
+  match filter (enabled fv s) (eager_labels s) with
+  | l :: _ => [l]
+  | [] =>
+      [TDReady; TDCtx; TDRet; TRecv; TCClosed; TNextCtx; TWait; TCloseCancel; TCloseWait; TParentProp]
+      ++ map TDispatch (first_idle (ws s) 0)
+      ++ flat_map (fun w => [TWSend w; TWCtx w; TWRet w]) (seq 0 (length (ws s)))
+  end.
 
 Definition labels_ev (s : st) (e : lab) : list lab :=
   match e with
@@ -962,10 +1022,10 @@ Definition labels_ev (s : st) (e : lab) : list lab :=
   end.
 
 Definition accepts_history (fv : Z -> Z) (c : cfg) (evs : list lab) : bool :=
-  accepts (qstep fv) vis lab_eqb st_eqb tau_labels labels_ev 64 (init c) evs.
+  accepts (mstep fv) vis lab_eqb st_eqb (tau_labels fv) labels_ev 64 (init c) evs.
 
 Definition first_rejected (fv : Z -> Z) (c : cfg) (evs : list lab) : option nat :=
-  first_reject (qstep fv) vis lab_eqb st_eqb tau_labels labels_ev 64
-               (close (qstep fv) vis st_eqb tau_labels 64 [init c]) evs O.
+  first_reject (mstep fv) vis lab_eqb st_eqb (tau_labels fv) labels_ev 64
+               (close (mstep fv) vis st_eqb (tau_labels fv) 64 [init c]) evs O.
 
 End MS.
